@@ -147,6 +147,17 @@ chk("C16",
     "only at ties, which are not judged); std = ln(sigma_A) evaluated in floating point with thresholds >= 0.5% away.",
     "TLA+ kernel spec (Sesame) model-checked with TLC; one implementation test per TLC case", "DESIGN.md#c16")
 
+chk("C19",
+    "spec/Cli.tla models the chunked process pool (chunksize = max(1, ntasks div nproc), one unpickled settings object per chunk, every "
+    "interleaving of up to 3 workers): TLC proves Independent, ChunksPartition and termination (weak fairness) for the property-level "
+    "design over every order of every batch, and finds the counterexample [big, small] for chunk-shared settings (negative configuration). "
+    "The real hvsrpy entry point is run on TLC-enumerated (batch, order, nproc) configurations of miniSEED files needing 32 768 resp. "
+    "65 536 points; each <stem>.csv is compared byte for byte with the per-file library pipeline, and the schedules recorded by the guarded "
+    "hook are validated by TLC against the specification (TraceCli).",
+    "Trusted: TLC; spec/Cli.tla as a model of multiprocessing.Pool.starmap chunking; obspy's miniSEED writer. Quick runs 6 CLI "
+    "invocations, thorough 40; processing settings other than the FFT length are not varied.",
+    "TLA+ concurrent model checked with TLC (safety + liveness, positive + negative config); real CLI runs validated by trace validation and byte-wise output comparison", "DESIGN.md#c19")
+
 def main():
     man = dict(
         version=1,
@@ -154,7 +165,7 @@ def main():
         hooks=dict(guard="HVSRPY_VERIF",
                    enable="export HVSRPY_VERIF=1 (the ./check entry point sets it; hvsrpy is imported from /repo's working tree, nothing is built)",
                    baseline_off_cmd="cd /repo && env -u HVSRPY_VERIF -u HVSRPY_VERIF_TRACE /venv/bin/python -m pytest -ra -q -p no:cacheprovider --timeout=900 --continue-on-collection-errors",
-                   source_commits=[],
+                   source_commits=["144a0e9"],
                    add_only=True),
         engines=[dict(name="tlc+replay", path="/verif/check",
                       serves_properties=sorted(CHECKS),
